@@ -25,6 +25,8 @@ class NumOps (α : Type) where
   roundAbs : α → Nat
   /-- `x.log10().ceil() as usize` (saturating cast: -inf ↦ 0) -/
   log10ceil : α → Nat
+  /-- `x.abs() >= 0.5` -/
+  geHalf : α → Bool
   /-- `x + 1.` -/
   addOne : α → α
   /-- `{}` of a non-negative integral value: its decimal digits -/
